@@ -144,7 +144,7 @@ def opWC (args obs : List String) : Option DecOut :=
       (if frames ≤ 1 then [] else [s!"C15 {frames} close frames written"]) ++
       (if closes == 1 then [] else [s!"C15 underlying connection closed {closes} times"]) ++
       (if closed && !reverted then [] else ["C15 Closed() is false after closing or reverted to false"]) ++
-      (if maxms ≤ 150 + 400 then [] else [s!"C15 a close call took {maxms} ms with a 150 ms close deadline"]) ++
+      (if maxms ≤ 150 + 1500 then [] else [s!"C15 a close call took {maxms} ms with a 150 ms close deadline"]) ++
       (if lres == "hang" then ["C15 Listen did not return after the connection was closed"] else []) ++
       (if leak == 0 then [] else [s!"C15 {leak} reader goroutine(s) of the library still alive after the connection was closed and every call returned"]) ++
       (if scen == "listeners" && ((extra.splitOn "+").filter (· ≠ "already")).length > 1 then
@@ -181,7 +181,11 @@ def opWC (args obs : List String) : Option DecOut :=
       else if scen != "relisten" then "" else if n == 0 then "already" else "+".intercalate (List.replicate (n + 1) "nil")
     let sortS (l : List String) := l.toArray.qsort (· < ·) |>.toList
     let corr :=
-      if sortS res == sortS wantRes && frames == wantFrames && lres == wantListen && extra == wantExtra then none
+      -- when the peer closed first (or the transport failed) under a running Listen, the library's own handler and
+      -- the callers race for the close gate: the closers model allows either to win
+      let altRes : List String := (List.replicate (nClosers - 1) "multiple") ++ ["nil"]
+      let resOk := sortS res == sortS wantRes || (internalWins && scen != "relisten" && sortS res == sortS altRes)
+      if resOk && frames == wantFrames && lres == wantListen && extra == wantExtra then none
       else some s!"model=(res={sortS wantRes} frames={wantFrames} listen={wantListen} extra={wantExtra}) go=({all})"
     some { corr := corr, fails := f15 ++ f16, branch := s!"wc.{scen}.{peer}.{ls}" }
   | _ => none
